@@ -1292,7 +1292,7 @@ func decodeWorker(prop string) func(r *evid.Run, w, n int) {
 		d := &decodeCtx{prop: prop, st: NewStats(), jr: shard.OpenJournal(), entries: decodeEntries(), w: w, n: n}
 		th := thorough(r)
 		scs := decodeScenarios(d, th)
-		dl := deadline(r, 45*time.Second, 25*time.Minute)
+		dl := deadline(r, 120*time.Second, 25*time.Minute)
 		for _, pl := range decodePlan(th) {
 			name, bound := pl[0].(string), pl[1].(int)
 			full := prop + "." + name
@@ -1311,7 +1311,7 @@ func decodeParent(prop string) func(r *evid.Run) {
 		if v := os.Getenv("VERIF_WORKERS"); v != "" {
 			n, _ = strconv.Atoi(v)
 		}
-		dl := deadline(r, 45*time.Second, 25*time.Minute)
+		dl := deadline(r, 120*time.Second, 25*time.Minute)
 		results := shard.Run(n, []string{prop, r.Tier}, 30*time.Second, dl)
 		died := 0
 		for _, wr := range results {
